@@ -274,8 +274,17 @@ def track(steps, variant=(0, 0, 0, 0)):
 
 
 # ---------------------------------------------------------------------------------------------
-def gen_go(rng, budget):
-    """A prior search command of a random limit kind.  Returns (go string, mode, wait)."""
+def gen_go(rng, budget, only=None):
+    """A prior search command of a random limit kind.  Returns (go string, mode, wait).
+    only = "nodes" | "depth" | "time": restrict to one family of limits."""
+    if only == "nodes":
+        return "nodes %d" % rng.choice([1, 30, 200, 1000, 1500, budget["nodes"]]), "wait", 0
+    if only == "depth":
+        return rng.choice(["depth %d" % rng.randint(1, budget["depth"]), "mate %d" % rng.randint(1, 2)]), "wait", 0
+    if only == "time":
+        if rng.random() < 0.5:
+            return "movetime %d" % rng.randint(3, budget["ms"]), "wait", 0
+        return "wtime %d btime %d movestogo %d" % (rng.randint(60, budget["ms"] * 30), rng.randint(60, budget["ms"] * 30), rng.randint(1, 40)), "wait", 0
     r = rng.random()
     if r < 0.22:
         return "depth %d" % rng.randint(1, budget["depth"]), "wait", 0
@@ -333,7 +342,7 @@ def gen_prior(rng, positions, probe_pos, n_prior, base_opts, flavour, budget):
     rel = related_positions(probe_pos)
     weak_base = int(cur["Strength"]) < 1000 or cur["UCI_LimitStrength"] == "true"
     for i in range(n_prior):
-        if flavour != "plain":
+        if flavour not in ("plain", "nodes-prior", "depth-prior", "time-prior"):
             r = rng.random()
             if r < 0.10 and not weak_base:
                 prior.append({"k": "newgame"})
@@ -354,8 +363,17 @@ def gen_prior(rng, positions, probe_pos, n_prior, base_opts, flavour, budget):
                 prior.append({"k": "opt", "name": n, "value": v})
             elif r < 0.33:
                 prior.append({"k": "clear"})
-        g, mode, wait = gen_go(rng, budget)
+        only = {"nodes-prior": "nodes", "depth-prior": "depth", "time-prior": "time"}.get(flavour)
+        g, mode, wait = gen_go(rng, budget, only)
         r = rng.random()
+        if only is None and rng.random() < 0.06:
+            # searchmoves: the last move of the game leading to a random position is legal in its predecessor
+            games = [p for p in positions if len(p[1].split()) >= 2]
+            if games:
+                mv = rng.choice(games)[1].split()
+                prior.append({"k": "go", "pos": "startpos moves " + " ".join(mv[:-1]), "go": "searchmoves %s depth %d" % (mv[-1], rng.randint(1, 3)),
+                              "mode": "wait", "wait": 0})
+                continue
         if flavour in ("contempt", "related") and rel and r < 0.7:
             pos = rng.choice(rel)
         elif r < 0.08:
